@@ -1,6 +1,7 @@
 package main
 
 import (
+	"sync"
 	"math/big"
 	"os"
 	"strconv"
@@ -312,6 +313,11 @@ func runSearch(m map[string]any) Result {
 		if r := reuseCheck(e, doc, b.carriers, adm, c2); r != nil {
 			return *r
 		}
+		if sharedGoroutines > 0 {
+			if r := sharedCheck(expr, doc, b.carriers, adm); r != nil {
+				return *r
+			}
+		}
 	}
 	res.GotS = c.out.show()
 	// determinism (C15): repeated evaluation on independently rebuilt documents
@@ -577,6 +583,58 @@ func reuseCheck(e *jmespath.Expression, doc *TV, carriers []string, adm []*TV, f
 	}
 	if !sameUpTo(adm, first.out, cb.out) {
 		r := fail("differs", cb.out, "a compiled expression changed its outcome after being used on another document: first "+first.out.show()+", afterwards "+cb.out.show())
+		return &r
+	}
+	return nil
+}
+
+// VERIF_SHARED=n (property C07): a freshly compiled expression -- never
+// evaluated before -- is searched by n goroutines released together, on one
+// shared document; every outcome must be admissible and the document
+// unchanged.  Run in a -race build, where unsynchronised state reachable from
+// the shared Expression (lazily filled caches, scratch buffers) is reported.
+var sharedGoroutines = func() int {
+	n, _ := strconv.Atoi(os.Getenv("VERIF_SHARED"))
+	return n
+}()
+
+func sharedCheck(expr string, doc *TV, carriers []string, adm []*TV) *Result {
+	e, cc := doCompile(expr)
+	if e == nil || cc.panicked {
+		return nil
+	}
+	bs := &builder{carriers: carriers}
+	shared := bs.build(doc)
+	outs := make([][2]call, sharedGoroutines)
+	start := make(chan struct{})
+	var wg sync.WaitGroup
+	for g := 0; g < sharedGoroutines; g++ {
+		wg.Add(1)
+		go func(g int) {
+			defer wg.Done()
+			<-start
+			outs[g][0] = doExprSearch(e, shared)
+			outs[g][1] = doExprSearch(e, shared)
+		}(g)
+	}
+	close(start)
+	wg.Wait()
+	for g := range outs {
+		for k := 0; k < 2; k++ {
+			c := outs[g][k]
+			if c.panicked {
+				r := fail("panic", c.out, fmt.Sprintf("goroutine %d of %d sharing one compiled expression: %s", g+1, sharedGoroutines, c.stack))
+				r.Site = c.site
+				return &r
+			}
+			if !admits(adm, c.out) {
+				r := fail("mismatch", c.out, fmt.Sprintf("goroutine %d of %d sharing one compiled expression and one document: outcome outside the admissible set", g+1, sharedGoroutines))
+				return &r
+			}
+		}
+	}
+	if after := fromGo(shared); !strictEq(doc, after) || !bs.spareIntact() {
+		r := fail("mutation", after, "the shared document changed during concurrent searches")
 		return &r
 	}
 	return nil
